@@ -36,6 +36,9 @@ CHECKS = {
  "C10": dict(level="model_checking", technique="explicit-state BFS over write/delete/drop/snapshot/compaction/reopen histories on a real tsdb.Store for both index types, every transition followed by exhaustive reads and index listings vs a reference model; hang watchdog",
    text="(a) BFS over 20 operations (writes to three series in two measurements incl. writes after deletes, closed/open-ended/single-instant range deletes, series drops by tag predicate within one and across all measurements, DROP MEASUREMENT, whole-database delete, snapshot, full and optimize compaction, reopen) from an empty shard and from a two-file base state, depth 3-4 (4-5 thorough), inmem and tsi1. After every transition all reads (iterator and cursor paths) and all listings (measurement names, tag keys, tag values, series of the index, series cardinality) must equal the model: deleted points never reappear, series with points stay listed, fully deleted series/tag values/measurements are not listed. Parts (b) crash points and (c) schedules of DESIGN are not built yet.",
    note="runs in a synctest bubble (background loops inert); a run that does not finish within 120 s real time is reported as a hang; known tsi1 tag-value finding is tolerated so that states behind it are still explored.", ref="§6 C10"),
+ "C14": dict(level="model_checking", technique="explicit-state BFS over index histories executed in lock-step on two real stores (inmem, tsi1), differential + reference-model oracle on every listing/predicate query after every transition",
+   text="BFS (depth 5, 6 thorough) over series creation (4 series, 2 measurements, 2 tag keys), drops by tag predicate, DROP MEASUREMENT, delete-all-points, re-creation, tsi1 index compaction (log file rolled after every write, Index.Compact+Wait), series-file partition compaction, snapshot and reopen, executed in lock-step on an inmem store and a tsi1 store. After every transition 8 predicates (=, !=, =~, !~, empty value, conjunction) x (measurement names, series of each measurement via MeasurementSeriesByExprIterator, host tag values) + tag keys + series cardinality are asked of both stores and compared with the set of series written and not dropped.",
+   note="SHOW MEASUREMENTS with negative/empty tag filters is compared differentially only (InfluxQL measurement-level filter semantics); tsi1's stale tag key/value entries are known findings and tolerated so that states behind them are explored; deletes name one measurement (see assumptions in the evidence).", ref="§6 C14"),
 }
 NA_REASON = "check not built yet in this round (planned in DESIGN.md §6); nothing is claimed for it"
 m = {
